@@ -86,31 +86,35 @@ struct [[nodiscard]] expected : destructor_crtp<E, T> {
 	}
 
 	expected &operator= (const expected &other) {
-		if(!indicates_error(other.e_)) {
+		// other may live inside the value that we hold: take what we need from it before that value is destroyed.
+		E e = other.e_;
+		if(!indicates_error(e)) {
 			T temp{*std::launder(reinterpret_cast<const T *>(other.stor_))};
 			if(!indicates_error(e_))
 				std::launder(reinterpret_cast<T *>(stor_))->~T();
-			e_ = other.e_;
+			e_ = e;
 			new (stor_) T{std::move(temp)};
 		}else{
 			if(!indicates_error(e_))
 				std::launder(reinterpret_cast<T *>(stor_))->~T();
-			e_ = other.e_;
+			e_ = e;
 		}
 		return *this;
 	}
 
 	expected &operator= (expected &&other) {
-		if(!indicates_error(other.e_)) {
+		// See the copy assignment: other is not touched any more once our value has been destroyed.
+		E e = other.e_;
+		if(!indicates_error(e)) {
 			T temp{std::move(*std::launder(reinterpret_cast<T *>(other.stor_)))};
 			if(!indicates_error(e_))
 				std::launder(reinterpret_cast<T *>(stor_))->~T();
-			e_ = other.e_;
+			e_ = e;
 			new (stor_) T{std::move(temp)};
 		}else{
 			if(!indicates_error(e_))
 				std::launder(reinterpret_cast<T *>(stor_))->~T();
-			e_ = other.e_;
+			e_ = e;
 		}
 		return *this;
 	}
